@@ -169,3 +169,14 @@ OBLIGATIONS['C06'] = [_attr(*u, 1) for u in ATTR_UNITS if u[0] in ('value_secret
 META['C08'] = dict(outside='attribute composition of every class (which class registers which attribute with which footnote flags) beyond the compositions instantiated here; templates (order effects) are covered by saveTemplate obligation of C09', assumptions=['tagging model of Token::encrypt/decrypt'])
 META['C06'] = dict(outside='that AES-CBC / the PBE really hide the plaintext; SQLite backend; file permission bits are obligation file_mode when present', assumptions=['tagging model of Token::encrypt/decrypt: encrypt(x) = TAG||x'])
 META['C02'] = dict(outside='global non-interference over all output buffers of all calls (we prove the per-call refusal); derive-mechanism inheritance of the flags is obligation derive_* when present', assumptions=['tagging model of Token::encrypt/decrypt'])
+
+# ----------------------------------------------------------------------------- C12
+_c12_fns = ['C_Encrypt', 'C_EncryptUpdate', 'C_EncryptFinal', 'C_Decrypt', 'C_DecryptUpdate', 'C_DecryptFinal', 'C_Digest', 'C_DigestUpdate', 'C_DigestFinal',
+            'C_Sign', 'C_SignUpdate', 'C_SignFinal', 'C_Verify', 'C_VerifyUpdate', 'C_VerifyFinal']
+OBLIGATIONS['C12'] = [
+    Ob('flow_' + fn[2:].lower(), 'C12/op_flow.cpp', ENTRY_REAL_NOP11 + ['object_store/FindOperation.cpp'], defines={'FN': i, 'BS_CAP': 40, 'MODEL_OUT_MAX': 24}, unwind=42, caps='common/entry_caps.h',
+       desc='%s from an arbitrary session state: wrong/absent operation => CKR_OPERATION_NOT_INITIALIZED and no crypto call; length query / CKR_BUFFER_TOO_SMALL leave the operation active and call no crypto; finished or failed operation is gone; never writes beyond the announced length; no private-key output while re-authentication is pending' % fn,
+       bounds='input <= 20 bytes, announced output length <= 32 (buffer 40 with canaries), block size 8/16, tag <= 16, buffered < block', timeout=600)
+    for i, fn in enumerate(_c12_fns)]
+OBLIGATIONS['C12'] += [o for o in OBLIGATIONS['C07'] if o.name.startswith('init_')]
+META['C12'] = dict(outside='what OpenSSL returns where it deviates from the sizes the SoftHSM code itself computes; call sequences longer than one step (each call is run from an arbitrary state of the session)', assumptions=['crypto back end = sink monitors with nondeterministic results and output lengths (harness/common/crypto_model.h)'])
